@@ -34,6 +34,25 @@ TEXT = {
   "note": "Trusted: Coq kernel, extraction, driver, harness. ParseCIDR/ParseMAC/InterfaceByName results are passed to the model as data. URL/ctx wiring in run.go is exercised by the C06 engines.",
   "technique": "Coq proof (induction over the list) + differential correspondence check",
  },
+ "C12": {
+  "text": "Proved in Coq (Properties/C12.v) on the model of Proxy.Resolve/hostsResolve/ptrIP/isPrivateReverse: a hosts-file answer is returned with "
+          "zero upstream calls; with bogus-priv a PTR query whose reverse name denotes a private/loopback/link-local address makes zero upstream "
+          "calls and is answered NXDOMAIN or from the tables; every other query reaches the upstream exactly once; name case never matters; the "
+          "code's bit tests equal the documented address ranges for all 65536 leading byte pairs (v4 and v6). Tie: the real Proxy.Resolve with the "
+          "real discovery.Hosts reading generated hosts files at /etc/hosts (private mount namespace), compared with the extracted model; the extracted "
+          "c12_ok spec (independent RFC reading of reverse names, spec_reverse) is evaluated on every observed exchange.",
+  "note": "Trusted: Coq kernel, extraction, driver (incl. its IP formatter), harness. Agreement of ptr_ip with the independent spec_reverse is checked per case, not proved in general. Defect F13 (case-sensitive .arpa) fixed in /repo.",
+  "technique": "Coq proof over the resolve-flow model + finite exhaustive check lifted by computation + differential correspondence check",
+ },
+ "C18": {
+  "text": "Proved in Coq (Properties/C18.v): for every hosts file, address->names and name->addresses lookups return exactly the associations "
+          "written in the file (order and repeats kept; case-insensitive key; built-in localhost default only when undefined); for every cap and "
+          "announcement sequence the mDNS name table never exceeds the cap and eviction removes a least-recently-updated name. Tie: appendUniq, "
+          "lease readers, hosts reader, merlin list and the real mDNS reader (packets over UDP, >1000 names) compared with the extracted model; "
+          "sorted-insertion spec and views_agree evaluated on the implementation's own outputs.",
+  "note": "Trusted: Coq kernel, extraction, driver, harness, add-only overlay exports of unexported readers. append_uniq = sorted insertion and mDNS view agreement are checked per case by extracted specs, not yet proved in general. Defects F5 (appendUniq) and F7 (mDNS eviction) fixed in /repo.",
+  "technique": "Coq proof (association-list folds, eviction bound by induction) + differential correspondence check incl. real UDP mDNS packets",
+ },
  "C13": {
   "text": "Proved in Coq (Properties/C13.v): nutterECSOption keeps the payload length, changes no byte outside the rewritten option, turns an option "
           "that lies inside the payload into code 0xFFFF with all-zero data, is memory-safe for every offset, and the option loop touches only "
